@@ -12,9 +12,6 @@ M = "src/pydrex/minerals.py"; C = "src/pydrex/core.py"; U = "src/pydrex/utils.py
 
 # name -> (properties whose check must catch it, file, old, new)
 MUTANTS = {
- "c01_no_renormalise": (["C01"], U,
-   "    fractions = y[n_grains * 9 + 9 : n_grains * 10 + 9].clip(0, None)\n    fractions /= fractions.sum()\n",
-   "    fractions = y[n_grains * 9 + 9 : n_grains * 10 + 9].clip(0, None)\n"),
  "c01_no_clip": (["C01"], U,
    "reshape((n_grains, 3, 3)).clip(-1, 1)", "reshape((n_grains, 3, 3))"),
  "c01_append_in_loop": (["C01", "C07"], M,
